@@ -320,6 +320,21 @@ def replay_case(case):
         herm = np.conj(np.swapaxes(got, 0, 1))
         res["dev"][what + "_hermitian"] = compare(V, fname + " Hermitian", got, herm,
                                                   2e-8 * tr2abs(wantabs) + 2 * floor, case)
+    if case["kind"] == "basis":
+        # the same requests on shells with a history (setters, in-place changes, rebuilt from used arrays) and on one
+        # integral object used several times
+        kw = {}
+        if what == "moment":
+            call = lambda sh: f(sh, org, orders)  # noqa: E731
+            kw = {"moment_coord": org, "moment_orders": orders}
+        else:
+            call = lambda sh: f(sh)  # noqa: E731
+        modname, clsname = {"overlap": ("gbasis.integrals.overlap", "Overlap"), "kinetic": ("gbasis.integrals.kinetic_energy", "KineticEnergyIntegral"),
+                            "moment": ("gbasis.integrals.moment", "Moment"), "momentum": ("gbasis.integrals.momentum", "MomentumIntegral"),
+                            "angmom": ("gbasis.integrals.angular_momentum", "AngularMomentumIntegral")}[what]
+        from . import reuse
+        res["history_probes"] = reuse.second_use(gb, b1, call, V, fname if what in ("momentum", "angmom") else what + "_integral")
+        res["history_probes"] += reuse.instance_reuse(gb, b1, modname, clsname, V, clsname, **kw)
     return res
 
 
@@ -359,6 +374,20 @@ def gen_pair_cases(pid, what, seed, tier, lmax, draws, extra):
                 sb = {"l": lb, "center": cen_b, "exps": [eb], "coeffs": [[cg.coeff(rng)]], "type": rng.choice(["cartesian", "spherical"])}
                 cid += 1
                 c = {"id": cid, "pid": pid, "what": what, "kind": "pair", "la": la, "lb": lb, "basis": [sa, sb], "tail": True}
+                c.update(extra(rng, c))
+                out.append(c)
+            if abs(la - lb) >= 2:
+                # one centre (off the origin), angular momenta two or more apart, the higher shell Cartesian: Cartesian shells
+                # are reducible (d holds an s part, f a p part, ...), so selection rules of pure harmonics do not apply
+                rng = cg.rng_for(seed, pid, "onecentre", la, lb)
+                cen = cg.center(rng, 2.0)
+                sa = cg.shell(rng, la, K=rng.randint(1, 2), M=rng.randint(1, 2), bits=24, cen=cen, hi=min(20.0, cg.exp_cap(la)))
+                sb = cg.shell(rng, lb, K=rng.randint(1, 2), M=rng.randint(1, 2), bits=24, cen=cen, hi=min(20.0, cg.exp_cap(lb)))
+                hi_, lo_ = (sa, sb) if la > lb else (sb, sa)
+                hi_["type"] = "cartesian"
+                lo_["type"] = rng.choice(["cartesian", "spherical", "spherical"])
+                cid += 1
+                c = {"id": cid, "pid": pid, "what": what, "kind": "pair", "la": la, "lb": lb, "basis": [sa, sb], "onecentre": True}
                 c.update(extra(rng, c))
                 out.append(c)
             if (la * 7 + lb * 3 + seed) % 3 == 0 or tier != "quick":
